@@ -17,8 +17,8 @@ BOUNDS = {
     "thorough": {"path": "<= 7 characters"},
 }
 STUBS = ["urllib.parse.quote: per-byte model, differentially tested at start-up"]
-ASSUMPTIONS = ["rule maps / script roots / schemes are enumerated", "paths are printable ASCII", "string query arguments ('q=1')"]
-OUTSIDE = ["redirect_to targets", "subdomains", "non-ASCII characters", "mapping query arguments"]
+ASSUMPTIONS = ["rule maps / script roots / schemes are enumerated", "paths are printable ASCII", "query arguments are fixed: the string 'q=1', a dict and a multi-valued mapping with a repeated key and a value that needs escaping"]
+OUTSIDE = ["redirect_to targets", "subdomains", "non-ASCII characters", "solver-chosen query keys / values (C02 covers the encoder)"]
 
 
 def obligations(tier, seed):
@@ -44,4 +44,12 @@ def obligations(tier, seed):
                         "params": {"mi": mi, "order": 0, "strict": True, "merge": True, "n": n, "method": "GET", "script": "/", "scheme": "http",
                                    "pct": True, "qbind": True},
                         "opts": {"budget_s": 600 if quick else 3000, "ctx": {"max_cp": 0x7E, "bv_ints": True}}})
+    # query arguments given as a mapping (dict; multi-valued mapping with a repeated key)
+    for qform in ("dict", "multi"):
+        for mi, qbind in ((0, False), (nm + 1, False), (na, True), (na + 2, False)):
+            for n in (range(0, 5) if quick else range(0, 8)):
+                out.append({"name": f"redirects[map={mi},query={qform},at-bind={qbind},n={n}]", "body": "body_match",
+                            "params": {"mi": mi, "order": 0, "strict": True, "merge": True, "n": n, "method": "GET", "script": "/", "scheme": "http",
+                                       "pct": True, "qbind": qbind, "qform": qform},
+                            "opts": {"budget_s": 600 if quick else 3000, "ctx": {"max_cp": 0x7E, "bv_ints": True}}})
     return out
